@@ -106,6 +106,8 @@ def fromhex(sx, s, st):
 
 
 class BytesClass:
+    __pyvc_classname__ = "bytes"
+
     def __pyvc_getattr__(self, sx, attr, st, node):
         if attr == "fromhex":
             return [R(st, Func(lambda sx2, a, k, s, n: fromhex(sx2, a[0].term, s), "bytes.fromhex"))]
@@ -123,6 +125,8 @@ BE_INT = REG.ufun("be_int", [z3.StringSort()], z3.IntSort())
 
 
 class IntClass:
+    __pyvc_classname__ = "int"
+
     def __pyvc_getattr__(self, sx, attr, st, node):
         if attr == "from_bytes":
             def fb(sx2, a, k, s, n):
@@ -237,3 +241,79 @@ def _z3str(v):
 
 
 REG.globals["re"] = Conc(ReModule())
+
+
+# ----------------------------------------------------------------------------- asyncio (shared, extensible model)
+TASK = V.Opaque("Task")
+ASYNCIO_ATTRS = {}
+
+
+class AsyncioModel:
+    def __pyvc_getattr__(self, sx, attr, st, node):
+        f = ASYNCIO_ATTRS.get(attr)
+        if f is None:
+            raise Unsupported("asyncio.%s" % attr, node)
+        return f(sx, st, node)
+
+
+REG.globals["asyncio"] = Conc(AsyncioModel())
+
+
+def asyncio_attr(name):
+    def deco(f):
+        ASYNCIO_ATTRS[name] = f
+        return f
+    return deco
+
+
+@asyncio_attr("sleep")
+def _aio_sleep(sx, st, node):
+    return [R(st, Func(lambda sx2, a, k, s, n: [R(s, NONE)], "asyncio.sleep"))]
+
+
+@asyncio_attr("wait")
+def _aio_wait(sx, st, node):
+    return [R(st, Func(lambda sx2, a, k, s, n: [R(s, NONE)], "asyncio.wait"))]
+
+
+@asyncio_attr("create_task")
+def _aio_create_task(sx, st, node):
+    def ct(sx2, a, k, s, n):
+        """asyncio.create_task(coro) (ASSUMED): schedules the coroutine, returns its task"""
+        if "task_created" in s.ghost:
+            s.ghost["task_created"] = V.mk_bool(True)
+        if "tasks_created" in s.ghost:
+            s.ghost["tasks_created"] = Val(V.Int, s.ghost["tasks_created"].term + 1)
+        return [R(s, sx2.fresh(TASK, "task", s))]
+    return [R(st, Func(ct, "asyncio.create_task"))]
+
+
+@asyncio_attr("TimeoutError")
+def _aio_te(sx, st, node):
+    return [R(st, Conc("TimeoutError"))]
+
+
+@asyncio_attr("CancelledError")
+def _aio_ce(sx, st, node):
+    return [R(st, Conc("CancelledError"))]
+
+
+def _task_method(sx, obj, attr, args, kwargs, st, node):
+    if attr == "cancel":
+        if "task_cancelled" in st.ghost:
+            st.ghost["task_cancelled"] = V.mk_bool(True)
+        return [R(st, NONE)]
+    return None
+
+
+def _task_await(sx, v, st, node):
+    # awaiting a (cancelled) task: its result, or CancelledError if it was cancelled before it ran
+    s2 = st.fork()
+    for s in (st, s2):
+        if "task_awaited" in s.ghost:
+            s.ghost["task_awaited"] = V.mk_bool(True)
+    return [R(st, sx.fresh(V.Int, "task_result", st)), R(s2, None, Exc("CancelledError"))]
+
+
+REG.hooks[("method", repr(TASK))] = _task_method
+REG.hooks[("await", repr(TASK))] = _task_await
